@@ -1,6 +1,12 @@
 import PhysisModel.Model.Tex
 import PhysisModel.Spec.Tex
 import Std.Tactic.BVDecide
+/-!
+Per-block lemmas for C13, for **all** blocks, by arithmetic (no enumeration):
+bit-vector facts (`bv_decide`) turn the Rust shifts / masks into `UIntN` arithmetic, `toNat`
+lemmas + `omega` turn that into the natural-number formulas of `Spec/Bcn.lean`.
+`BlockOK` is the interface to the whole-image induction in `Proofs/BcnImage.lean`.
+-/
 open Physis Physis.Bcn Physis.Spec.Bcn
 namespace Physis.Proofs.Bcn
 
